@@ -381,3 +381,19 @@ ADDENDA_R6 = {
     "C19": ("ostreambuf_iterator clause of R19.b", "no write through a stream-buffer iterator (indent() included)", "who-may-call"),
     "C20": ("R20.10", "every parameterless int/bool accessor of a record class yields 0 on the default-constructed placeholder (found F-C20c)", "expression evaluation on constructor defaults"),
 }
+
+
+# Round 7 (DESIGN.md section 8).
+ADDENDA_R7 = {
+    "C02": ("R02.10", "the constness-blind argument extractor is emitted only where const_ok holds", "gated reachability of emitting literals"),
+    "C06": ("R06.13, R06.14", "every member comparison in is_equal/is_less pairs this with the same member of the other object; a deep ordering is guarded by a deep inequality", "operand-role analysis of comparisons"),
+    "C09": ("R09.10", "the comment scanner reads exactly one character per trip round its loop", "path enumeration over a loop's CFG region"),
+    "C10": ("further-parameters clause of R10.3", "a constructor is a copy/move constructor only if its parameter [1] (hence every further one) has a default", "subscript-constant check in the gating condition"),
+    "C11": ("R11.10", "update_<kind>() is never reached with an index the function itself treats as possibly 0", "contradiction rule (tested-for-zero vs used)"),
+    "C12": ("R12.10", "flag enumerator values are part of the .in format and keep their released values", "frozen format table"),
+    "C14": ("R14.8", "every output of the tools is opened truncating", "default-argument resolution at call sites"),
+    "C15": ("inherits-outer-set clause of R15.7", "the ignore set of a nested macro expansion starts from the caller's set", "initialiser provenance"),
+    "C16": ("range-for emission loops in R16.2", "every per-library emission loop, iterator style or range-for, walks `libraries`", "loop-container resolution"),
+    "C17": ("R17.8", "Filename::standardize pops a component only if the list is not empty and its last element is not `..`", "gated reachability"),
+    "C18": ("R18.8", "WriteExponent writes the decimal text of every possible exponent (interpreter with pointers into the output buffer and the digit table)", "abstract execution of a function body, exhaustive over the exponent range"),
+}
